@@ -628,6 +628,17 @@ func luaRunChild(args []string) int {
 			}
 		}
 	}()
+	// a child whose parent is gone (the check was killed or timed out while a program of a broken tree spins for ever)
+	// must not stay behind and eat a core: it ends as soon as it has been re-parented
+	parent := os.Getppid()
+	go func() {
+		for {
+			time.Sleep(2 * time.Second)
+			if os.Getppid() != parent {
+				os.Exit(4)
+			}
+		}
+	}()
 	in := bufio.NewReaderSize(os.Stdin, 1<<20)
 	out := bufio.NewWriter(os.Stdout)
 	for {
